@@ -10,6 +10,8 @@ pub mod c20;
 pub mod e2smoke;
 pub mod wvr;
 pub mod c05;
+pub mod c07;
+pub mod c08;
 pub mod c09;
 pub mod scripted;
 
@@ -58,6 +60,8 @@ pub fn spec(id: &str) -> Option<Spec> {
     "C03" => Some(c03::spec()),
     "C04" => Some(c04::spec()),
     "C05" => Some(c05::spec()),
+    "C07" => Some(c07::spec()),
+    "C08" => Some(c08::spec()),
     "C09" => Some(c09::spec()),
     "C20" => Some(c20::spec()),
     "X01" => Some(e2smoke::spec()),
@@ -72,6 +76,8 @@ pub fn run(id: &str, tier: &str, ctx: &mut Ctx) -> Check {
     "C03" => c03::run(tier, ctx),
     "C04" => c04::run(tier, ctx),
     "C05" => c05::run(tier, ctx),
+    "C07" => c07::run(tier, ctx),
+    "C08" => c08::run(tier, ctx),
     "C09" => c09::run(tier, ctx),
     "C20" => c20::run(tier, ctx),
     "X01" => e2smoke::run(tier, ctx),
